@@ -22,10 +22,12 @@ class Chooser:
         self.log: List[Tuple[str, int, int]] = []
 
     # -- core -------------------------------------------------------------
+    muted = False          # muted: always the first outcome, nothing recorded (for set-up work that is not under exploration)
+
     def pick(self, n: int, what: str = "choice") -> int:
         if n <= 0:
             raise IndexError("choice from an empty population")
-        if n == 1:
+        if n == 1 or self.muted:
             return 0
         if self.pos < len(self.script):
             k = self.script[self.pos]
@@ -143,12 +145,37 @@ def patched(jp_pkg, chooser):
             m.random = o
 
 
+CURRENT: List[Chooser] = []
+
+
+@contextlib.contextmanager
+def muted():
+    """Inside explore(): the random choices made in this block are not part of the explored tree."""
+    ch = CURRENT[-1] if CURRENT else None
+    if ch is None:
+        yield
+        return
+    old, ch.muted = ch.muted, True
+    try:
+        yield
+    finally:
+        ch.muted = old
+
+
 def explore(jp_pkg, fn: Callable[[], Any], cap: int = 50000, stop=None) -> Tuple[List[Any], bool, int]:
     """Run fn under every outcome of every random choice.  Returns (results, complete, runs).
     `stop(result)` true ends the exploration at once (a run that did not terminate: its choice script is unbounded)."""
     ch = Chooser()
     results = []
     runs = 0
+    CURRENT.append(ch)
+    try:
+        return _explore(jp_pkg, ch, fn, cap, stop, results, runs)
+    finally:
+        CURRENT.pop()
+
+
+def _explore(jp_pkg, ch, fn, cap, stop, results, runs):
     with patched(jp_pkg, ch):
         while True:
             ch.reset_run()
